@@ -16,12 +16,13 @@ import Oracle.ConnCommon
 namespace KV.OracleC17
 open KV KV.Reader KV.ConnOps KV.OracleConn
 
-def monitorConn (cut : Bool) (impl : String) : Bool :=
+def monitorConn (a : OpInst) (cut : Bool) (impl : String) : Option Bool :=
   match words impl with
   | [res, next, deliver] =>
-    (deliver == "-" || deliver == "prefix") && res != "panic" && res != "hang" &&
-    (if cut then (isFailStr res || res.startsWith "kafka:") && isFailStr next else isDone res)
-  | _ => false
+    let base := (deliver == "-" || deliver == "prefix") && res != "panic" && res != "hang"
+    if cut then some (base && (isFailStr res || res.startsWith "kafka:") && isFailStr next)
+    else (specJudge a res).map (fun okA => base && okA && isDone res)     -- full frame: judged as in C11
+  | _ => some false
 
 def modelConn (topic : Bytes) (a : OpInst) (k : Nat) (nextBody : Bytes) : Option String :=
   let fa := frame 1 a.body
@@ -40,9 +41,10 @@ def step (line : String) : String :=
     | ["c17", t, sa, ha, ks, hn] =>
       match ofHex t, parseInst sa ha, ks.toNat?, ofHex hn with
       | some topic, some a, some k, some nb =>
-        match modelConn topic a k nb with
-        | some m => s!"model={m} holds={if monitorConn (k < a.body.length + 8) impl then 1 else 0}"
-        | none => "bad-op"
+        match modelConn topic a k nb, monitorConn a (k < a.body.length + 8) impl with
+        | some m, some h => s!"model={m} holds={if h then 1 else 0}"
+        | none, _ => "bad-op"
+        | _, none => "bad-frame: body is not an encoding of the Spec layout"
       | _, _, _, _ => "bad-args"
     | ["rr", _, _, ls, ks, _] =>
       match ls.toNat?, ks.toNat? with
